@@ -133,7 +133,11 @@ impl Simd for Simd256u {
     }
 
     #[inline(always)]
-    fn gt(&self, _rhs: &Self) -> Self::Mask {
-        todo!()
+    fn gt(&self, rhs: &Self) -> Self::Mask {
+        // unsigned: self > rhs is the complement of self <= rhs
+        unsafe {
+            let le = self.le(rhs).0;
+            Mask256(_mm256_xor_si256(le, _mm256_set1_epi8(-1)))
+        }
     }
 }
